@@ -38,6 +38,22 @@ CHECKS['C15'] = dict(
     technique='Lean 4 theorems on a model regenerated from the source (py2lean) + model/implementation/spec correspondence with exact rationals',
     design='§5 C15')
 
+CHECKS['C13'] = dict(
+    level='proof',
+    text=('Theorems: the closed-form serial the date table stores equals the spec serial (anchor 1 Mar 1900 = 61, +1 per '
+          'Gregorian successor) for every valid date from 1 Mar 1900 with NO upper bound on the year; the spec closed form '
+          'meets its successor recurrence; the GENERATED weekday kernel is the true weekday; serial is strictly monotone in '
+          '(y,m,d) (so ordering/equality/hash/subtraction follow the calendar); table steps of add_days move the serial by '
+          'exactly one and forward/backward steps are inverse; add_months lands in the arithmetic target month clipped to '
+          'its last day; the GENERATED next_cds_date is the first 20 Mar/Jun/Sep/Dec strictly after; results do not depend '
+          'on the table-extension state. Tie: kernels regenerated from date.py each run + exhaustive correspondence '
+          '(implementation = model = spec = Python datetime) on every date 1900-03-01..2200-12-31, sampled arithmetic, '
+          'malformed constructor stream, call histories in fresh interpreters.'),
+    note=BASE_NOTE + 'fastmath float division in the compiled date_from_index is validated exhaustively, not proved; add_years with '
+         'fractional years not modelled; next IMM minimality is validated against a day-by-day search spec, not proved.',
+    technique='Lean 4 theorems (omega/case analysis) on generated kernels + hand model; exhaustive model/implementation/spec correspondence',
+    design='§5 C13')
+
 NOT_YET = {}
 
 
